@@ -34,6 +34,11 @@ type world struct {
 	// System is then the LocationProvider that resolves parents, with its
 	// location cache and the cron hooks it installs.
 	engine *sys.System
+	// strictEvents: a failing ProcessEvent is a violation whenever the model
+	// has a rule that certainly must be dispatched, even if the presence of
+	// other rules is unspecified at that moment (set by checks in whose
+	// histories nothing can make event processing fail legitimately).
+	strictEvents bool
 	// eventCtx, if set, is the context checkEvent passes to ProcessEvent
 	// (actions that use Env.AddFact etc. need a context with a location).
 	eventCtx *core.Context
@@ -731,7 +736,7 @@ func (w *world) checkEvent(name string, event M, when string) eventCmp {
 	ec.Expected = len(exp)
 	if cond != nil {
 		ec.ErrorDisp = true
-		if len(unspec) == 0 {
+		if len(unspec) == 0 || (w.strictEvents && len(exp) > 0) {
 			w.o.Fail("DISPATCH_ERROR", "%s: %s ProcessEvent(%s) failed with %q although the model dispatches %v (stale index entry blocking dispatch?)",
 				when, name, vlib.JSON(event), cond.Msg, keysOfExp(exp))
 		}
